@@ -152,6 +152,8 @@ SPECS = {
 }
 
 SPEC_TEXT = {}
+SUBJECT_FIELDS = {"YAEP_UNACCESSIBLE_NONTERM": r"\.symb\.access_p\] == 0$", "YAEP_NONTERM_DERIVATION": r"\.symb\.derivation_p\] == 0$",
+                  "YAEP_LOOP_NONTERM": r"\.loop_p\] != 0$"}
 NEAR_HINTS = {}
 for _c in SPECS["YAEP_FIXED_NAME_USAGE"][4]:
     NEAR_HINTS[_c] = ["grammar.axiom] == symb_find_by_repr(", "grammar.end_marker] == symb_find_by_repr("]
@@ -256,6 +258,15 @@ def rule_code_table(ctx, rep, config="c-lib"):
                 continue
             if sat and sat <= cat and (near is None or all(_has(conds, c) for c in spec if not c.startswith(("re:", "n2re:")))):
                 near = spec
+        if near is None and cname in SUBJECT_FIELDS:
+            # the documented test of the right member, applied to other symbols than the nonterminals (and not restricted to them by a test of term_p)
+            import re as _re2
+            rx = SUBJECT_FIELDS[cname]
+            hit = [c for c in conds if _re2.search(rx, c)]
+            if hit and not any("nonterm_get(" in c for c in hit) and not any(_re2.search(r"\.symb\.term_p\] == 0$", c) for c in conds):
+                rep.violation("C10-codes", key, "%s is raised for %s: the documented check concerns the nonterminals (nonterm_get (i)); applied to every symbol it refuses "
+                              "well-formed grammars (a declared terminal that no rule uses is `not accessible')" % (cname, hit[0]), where=i.where(), witness=[i.where()] + conds)
+                continue
         if near is not None:
             missing = [c for c in near if not _has(conds, c)]
             shown = [SPEC_TEXT.get(c, c) for c in missing]
